@@ -215,6 +215,8 @@ def check_order(pre: Layout, post: Layout, info, inserted: Sequence[Sequence[int
         for j in range(i + 1, len(inserted)):
             for x in inserted[i]:
                 for y in inserted[j]:
+                    if x in point and y in point and point[x] < point[y] <= point[x] + slack.get(x, 0):
+                        continue  # batch_insert: y's insertion point lies inside the carve-out zone of x's group
                     if conflict(info[x], info[y], keys_inserted) and not ipos[x] < ipos[y]:
                         return (f"inserted conflicting operations id {x} then id {y} are not in the given order: "
                                 f"moments {ipos[x]} and {ipos[y]}")
